@@ -1167,7 +1167,10 @@ def _private(fi: FuncInfo) -> bool:
 def _is_new(fi: FuncInfo) -> bool:
     """fi does not exist in the reviewed tree (sa/tables/local_names.json lists every reviewed function)."""
     known = load_table().get(fi.module.relpath)
-    return known is not None and fi.qualname not in known
+    if known is None:
+        # a file the reviewed tree does not have at all (the table lists every reviewed file of the package that defines a function)
+        return fi.module.relpath.startswith("ipv8/") and fi.module.relpath.endswith(".py")
+    return fi.qualname not in known
 
 
 def _within(fi: FuncInfo, allowed) -> bool:
@@ -1645,6 +1648,42 @@ def _own_loop_jumps(body) -> bool:
     return False
 
 
+def _without_continue(stmts: list):
+    """
+    The same statement list without `continue`s of the enclosing loop, when they are guard clauses: `continue` ends the
+    list, or is the last statement of one branch of a top-level `if` whose other statements do not jump - the rest of the
+    list then moves into the other branch.  None for any other placement (inside try / with / nested if chains that mix jumps).
+    """
+    out = []
+    for i, st in enumerate(stmts):
+        if isinstance(st, ast.Continue):
+            return out or [ast.copy_location(ast.Pass(), st)]
+        if isinstance(st, ast.Break):
+            return None
+        if not _own_loop_jumps([st]):
+            out.append(st)
+            continue
+        if not isinstance(st, ast.If):
+            return None
+        rest = _without_continue(stmts[i + 1:])
+        if rest is None:
+            return None
+        body_j, else_j = _own_loop_jumps(st.body), _own_loop_jumps(st.orelse)
+        if body_j and else_j:
+            return None
+        jb, other = (st.body, st.orelse) if body_j else (st.orelse, st.body)
+        if not isinstance(jb[-1], ast.Continue) or _own_loop_jumps(jb[:-1]):
+            return None
+        keep = jb[:-1] or [ast.copy_location(ast.Pass(), jb[-1])]
+        cont = [*other, *rest] or [ast.copy_location(ast.Pass(), st)]
+        new_if = ast.If(test=st.test, body=keep if body_j else cont, orelse=cont if body_j else keep)
+        if not new_if.orelse or (len(new_if.orelse) == 1 and isinstance(new_if.orelse[0], ast.Pass)):
+            new_if.orelse = []
+        out.append(ast.copy_location(new_if, st))
+        return out
+    return out
+
+
 def _stored_chains(body) -> set[str]:
     out = set()
     for st in body:
@@ -1682,8 +1721,16 @@ class _Unroller:
 
     def unroll(self, st: ast.For):
         elts = _literal_elts(self.repo, self.fi, st.iter)
-        if elts is None or len(elts) > 8 or _own_loop_jumps(st.body):
+        if elts is None or len(elts) > 8:
             return None
+        orig = st
+        if _own_loop_jumps(st.body):
+            # guard-clause `continue`s are structured away first (`if c: continue; REST` is `if c: pass / else: REST`)
+            body = _without_continue([clone(b) for b in st.body])
+            if body is None or _own_loop_jumps(body):
+                return None
+            st = ast.copy_location(ast.For(target=st.target, iter=st.iter, body=body, orelse=st.orelse, type_comment=None), st)
+            ast.fix_missing_locations(st)
         tnames = {n.id for n in ast.walk(st.target) if isinstance(n, ast.Name)}
         if not tnames or any(not isinstance(n, (ast.Name, ast.Tuple, ast.List, ast.Load, ast.Store)) for n in ast.walk(st.target)):
             return None
@@ -1691,12 +1738,13 @@ class _Unroller:
         if tnames & stored:
             return None
         # the loop variables must not be used outside the loop (they would keep the last element)
-        inside = {id(n) for n in ast.walk(st)}
+        inside = {id(n) for n in ast.walk(st)} | {id(n) for n in ast.walk(orig)}
         for n in ast.walk(self.root):
             if isinstance(n, ast.Name) and n.id in tnames and id(n) not in inside:
                 return None
         out = []
-        for e in elts:
+        fresh = self._iteration_locals(st, tnames, inside)
+        for k, e in enumerate(elts):
             m: dict = {}
             if not _bind_target(st.target, e, m):
                 return None
@@ -1710,8 +1758,38 @@ class _Unroller:
                                    for b in st.body for n in ast.walk(b)):
                                 return None
             sub = _Subst(m)
-            out.extend(sub.visit(clone(b)) for b in st.body)
+            copy = [sub.visit(clone(b)) for b in st.body]
+            if k and fresh:
+                # a local that every iteration binds before reading it and that is not used outside the loop is a different
+                # variable per iteration: give the later copies their own name, so that each has one definition
+                ren = {x: f"{x}__{k}" for x in fresh}
+                for b in copy:
+                    for n in ast.walk(b):
+                        if isinstance(n, ast.Name) and n.id in ren:
+                            n.id = ren[n.id]
+            out.extend(copy)
         out.extend(st.orelse)
+        return out
+
+    def _iteration_locals(self, st: ast.For, tnames: set, inside: set) -> set:
+        cands = {n.id for b in st.body for n in ast.walk(b) if isinstance(n, ast.Name) and isinstance(n.ctx, (ast.Store, ast.Del))} - tnames
+        if not cands or any(isinstance(n, (ast.FunctionDef, ast.AsyncFunctionDef, ast.Lambda, ast.ClassDef, ast.Global, ast.Nonlocal, ast.GeneratorExp,
+                                           ast.ListComp, ast.SetComp, ast.DictComp)) for b in st.body for n in ast.walk(b)):
+            return set()
+        for n in ast.walk(self.root):
+            if isinstance(n, ast.Name) and n.id in cands and id(n) not in inside:
+                cands.discard(n.id)
+        out = set()
+        for x in cands:
+            for b in st.body:
+                if not any(isinstance(n, ast.Name) and n.id == x for n in ast.walk(b)):
+                    continue
+                # the first top-level statement of the body that mentions x is the plain binding `x = <something without x>`
+                if isinstance(b, (ast.Assign, ast.AnnAssign)) and b.value is not None and \
+                        [norm(t) for t in (b.targets if isinstance(b, ast.Assign) else [b.target])] == [x] and \
+                        not any(isinstance(n, ast.Name) and n.id == x for n in ast.walk(b.value)):
+                    out.add(x)
+                break
         return out
 
     @staticmethod
@@ -1973,6 +2051,364 @@ class _LoopPipelines:
         return [init, *(r if r is not None else [loop])]
 
 
+# ------------------------------------------------------------------------------------ helpers the load-time inliner cannot reach
+_PLAIN_BUILTINS = frozenset({"len", "int", "bool", "float", "str", "bytes", "min", "max", "abs", "isinstance", "tuple", "list", "dict", "set", "frozenset",
+                             "sum", "any", "all", "sorted", "range", "enumerate", "zip", "getattr", "hasattr", "setattr", "repr", "divmod", "round"})
+
+
+def _foreign_attr_names() -> frozenset:
+    """Attribute names of objects that do not come from the repository (builtin containers, strings, futures, transports, loggers, sockets)."""
+    global _FOREIGN_ATTRS
+    if _FOREIGN_ATTRS is None:
+        import asyncio
+        import logging
+        import socket
+        names: set = set()
+        for t in (dict, list, set, frozenset, tuple, str, bytes, bytearray, int, float, object, type, asyncio.Future, asyncio.Task, asyncio.DatagramTransport,
+                  asyncio.Transport, asyncio.AbstractEventLoop, asyncio.Event, asyncio.Lock, logging.Logger, socket.socket, BaseException):
+            names |= set(dir(t))
+        _FOREIGN_ATTRS = frozenset(names)
+    return _FOREIGN_ATTRS
+
+
+_FOREIGN_ATTRS = None
+
+
+def _functions_named(repo, name: str) -> list:
+    idx = repo.__dict__.get("_c09_by_name")
+    if idx is None:
+        idx = {}
+        for g in repo.all_functions():
+            idx.setdefault(g.name, []).append(g)
+        repo.__dict__["_c09_by_name"] = idx
+    return idx.get(name, [])
+
+
+def _attr_stored(repo, name: str) -> bool:
+    """Some `<x>.name = ...` / class-level `name = ...` exists: the attribute may be something other than the one method of that name."""
+    memo = repo.__dict__.setdefault("_c09_attr_stored", {})
+    if name not in memo:
+        memo[name] = name in _foreign_attr_names() or any(isinstance(a.ctx, (ast.Store, ast.Del)) for _m, _g, a in repo.attribute_uses(name)) or \
+            any(name in c.attrs or name in c.annotations for c in repo.all_classes())
+    return memo[name]
+
+
+def _foreign_target(repo, fi: FuncInfo, call: ast.Call):
+    """
+    (helper, receiver expression | None) when the call can only run one NEW, undecorated, plain function or method that the
+    load-time inliner did not reach (defined in another module, on a mixin / base class, or taking the object as an argument).
+    A method is identified by its name being unique in the repository (one definition, never stored as an attribute), so the
+    receiver's type need not be known.
+    """
+    f = call.func
+    g, recv = None, None
+    if isinstance(f, ast.Name):
+        if is_param(fi, f.id) or local_defs(fi, f.id):
+            return None
+        r = repo.resolve_name(fi.module, f.id)
+        if isinstance(r, FuncInfo) and r.cls is None and "." not in r.qualname:
+            g = r
+    elif isinstance(f, ast.Attribute):
+        if isinstance(f.value, ast.Name) and not is_param(fi, f.value.id) and not local_defs(fi, f.value.id) and f.value.id not in ("self", "cls"):
+            r = repo.resolve_name(fi.module, f.value.id)
+            if isinstance(r, tuple) and r[0] == "module" and r[1] is not None:
+                g = r[1].functions.get(f.attr)
+                if g is None:
+                    return None
+        if g is None:
+            cands = _functions_named(repo, f.attr)
+            if len(cands) != 1 or cands[0].cls is None or cands[0].qualname != f"{cands[0].cls.name}.{cands[0].name}":
+                return None
+            g, recv = cands[0], f.value
+            if not _is_new(g) or _attr_stored(repo, f.attr):
+                return None
+    if g is None or g.node is fi.node or not _is_new(g) or g.node.decorator_list or (g.name.startswith("__") and g.name.endswith("__")):
+        return None
+    if len(_functions_named(repo, g.name)) != 1 and recv is not None:
+        return None
+    if any(isinstance(n, (ast.Yield, ast.YieldFrom, ast.Global, ast.Nonlocal, ast.FunctionDef, ast.AsyncFunctionDef, ast.Lambda, ast.ClassDef,
+                          ast.GeneratorExp, ast.ListComp, ast.SetComp, ast.DictComp, ast.NamedExpr)) for b in g.node.body for n in ast.walk(b)):
+        return None
+    a = g.node.args
+    if a.vararg or a.kwarg:
+        return None
+    return g, recv
+
+
+def _foreign_getter(repo, n: ast.Attribute):
+    """The one NEW read-only @property that `<x>.name` can only be (unique name, never stored, no class attribute of that name)."""
+    cands = _functions_named(repo, n.attr)
+    if len(cands) != 1 or cands[0].cls is None or not _is_new(cands[0]) or cands[0].decorator_names() != ["property"]:
+        return None
+    if _attr_stored(repo, n.attr):
+        return None
+    return cands[0]
+
+
+def _helper_body(g: FuncInfo) -> list:
+    body = list(g.node.body)
+    if body and isinstance(body[0], ast.Expr) and isinstance(body[0].value, ast.Constant) and isinstance(body[0].value.value, str):
+        body = body[1:]
+    return body
+
+
+def _relocate(node: ast.AST, at: ast.AST) -> ast.AST:
+    for n in ast.walk(node):
+        if hasattr(n, "lineno") or isinstance(n, (ast.expr, ast.stmt)):
+            ast.copy_location(n, at)
+    return node
+
+
+class _ForeignInliner:
+    """
+    Replaces calls of such helpers by their body with the parameters bound (the receiver for `self`): an expression-bodied helper
+    anywhere; a helper called as a statement, as `return helper(...)` or as `x = helper(...)` by its statements.  Evaluation
+    order is kept: arguments that are not plain names / attribute chains / constants are bound to fresh locals first
+    (statement forms) or must be used exactly once (expression form).
+    """
+
+    def __init__(self, repo, fi: FuncInfo, root) -> None:
+        self.repo, self.fi, self.root, self.changed = repo, fi, root, False
+        self.taken = {n.id for n in ast.walk(root) if isinstance(n, ast.Name)} | set(fi.params())
+        self.count = 0
+
+    # -- binding
+    def _plain(self, e: ast.AST) -> bool:
+        e = strip_cast(e)
+        if isinstance(e, ast.Constant):
+            return True
+        while isinstance(e, ast.Attribute):
+            e = e.value
+        return isinstance(e, ast.Name)
+
+    def _bind(self, g: FuncInfo, recv, call: ast.Call):
+        """parameter -> argument expression (defaults filled in), or None"""
+        a = g.node.args
+        pos = [x.arg for x in a.posonlyargs + a.args]
+        out: dict = {}
+        if recv is not None:
+            if not pos or "staticmethod" in g.decorator_names():
+                return None
+            out[pos[0]] = recv
+            pos = pos[1:]
+        if any(isinstance(x, ast.Starred) for x in call.args) or any(k.arg is None for k in call.keywords) or len(call.args) > len(pos):
+            return None
+        for p_, x in zip(pos, call.args):
+            out[p_] = x
+        names = set(pos) | {x.arg for x in a.kwonlyargs}
+        for k in call.keywords:
+            if k.arg not in names or k.arg in out:
+                return None
+            out[k.arg] = k.value
+        dpos = dict(zip(reversed([x.arg for x in a.posonlyargs + a.args]), reversed(a.defaults)))
+        dkw = {x.arg: d for x, d in zip(a.kwonlyargs, a.kw_defaults) if d is not None}
+        for p_ in names:
+            if p_ not in out:
+                d = dpos.get(p_, dkw.get(p_))
+                if d is None or not isinstance(d, ast.Constant):
+                    return None
+                out[p_] = d
+        return out
+
+    def _names_ok(self, g: FuncInfo, body: list, params: set) -> bool:
+        """Every free name of the helper's body means the same thing where the body is pasted."""
+        stored = {n.id for b in body for n in ast.walk(b) if isinstance(n, ast.Name) and isinstance(n.ctx, (ast.Store, ast.Del))}
+        if stored & params:
+            return False
+        for b in body:
+            for n in ast.walk(b):
+                if not isinstance(n, ast.Name) or n.id in params or n.id in stored:
+                    continue
+                if n.id in self.fi.params() or local_defs(self.fi, n.id):
+                    return False                                     # shadowed by a local of the caller
+                if g.module is self.fi.module:
+                    continue
+                here, there = self.fi.module, g.module
+                if n.id in there.imports or n.id in there.classes or n.id in there.functions or n.id in there.constants:
+                    if n.id in there.imports and here.imports.get(n.id) == there.imports[n.id]:
+                        continue
+                    r1, r2 = self.repo.resolve_name(there, n.id), self.repo.resolve_name(here, n.id)
+                    if r1 is None or r2 is None or not (r1 is r2 or r1 == r2):
+                        return False
+                elif n.id in here.imports or n.id in here.classes or n.id in here.functions or n.id in here.constants or n.id not in _PLAIN_BUILTINS | {"True", "False", "None"}:
+                    return False
+        return True
+
+    def _uses(self, body: list, name: str) -> int:
+        return sum(1 for b in body for n in ast.walk(b) if isinstance(n, ast.Name) and n.id == name)
+
+    def _fresh(self, base: str) -> str:
+        k = 0
+        while True:
+            name = f"{base}__h{k or ''}"
+            if name not in self.taken:
+                self.taken.add(name)
+                return name
+            k += 1
+
+    # -- expression form
+    def expr(self, call: ast.Call):
+        t = _foreign_target(self.repo, self.fi, call)
+        if t is None:
+            return None
+        g, recv = t
+        body = _helper_body(g)
+        if len(body) != 1 or not isinstance(body[0], ast.Return) or body[0].value is None or g.is_async:
+            return None
+        if any(isinstance(n, ast.Await) for n in ast.walk(body[0])):
+            return None
+        m = self._bind(g, recv, call)
+        if m is None or not self._names_ok(g, body, set(m)):
+            return None
+        hard = [p_ for p_, x in m.items() if not self._plain(x)]
+        if hard and (len(hard) > 1 or self._uses(body, hard[0]) != 1):
+            return None
+        return _relocate(_Subst(m).visit(clone(body[0].value)), call)
+
+    # -- read-only property
+    def getter(self, n: ast.Attribute):
+        g = _foreign_getter(self.repo, n)
+        if g is None or g.node is self.fi.node:
+            return None
+        body = _helper_body(g)
+        ps = g.params()
+        if len(body) != 1 or not isinstance(body[0], ast.Return) or body[0].value is None or len(ps) != 1 or g.is_async:
+            return None
+        if any(isinstance(x, (ast.Await, ast.Yield, ast.YieldFrom, ast.NamedExpr, ast.Lambda)) for x in ast.walk(body[0])):
+            return None
+        if not self._names_ok(g, body, {ps[0]}):
+            return None
+        if not self._plain(n.value) and self._uses(body, ps[0]) != 1:
+            return None
+        return _relocate(_Subst({ps[0]: n.value}).visit(clone(body[0].value)), n)
+
+    # -- statement forms
+    def stmts(self, st: ast.stmt):
+        v = st.value if isinstance(st, (ast.Expr, ast.Return, ast.Assign, ast.AnnAssign)) else None
+        awaited = isinstance(v, ast.Await)
+        call = v.value if awaited else v
+        if not isinstance(call, ast.Call):
+            return None
+        t = _foreign_target(self.repo, self.fi, call)
+        if t is None:
+            return None
+        g, recv = t
+        if g.is_async != awaited or awaited and not self.fi.is_async:
+            return None
+        body = _helper_body(g)
+        if not body:
+            return None
+        m = self._bind(g, recv, call)
+        if m is None or not self._names_ok(g, body, set(m)):
+            return None
+        rets = [n for b in body for n in ast.walk(b) if isinstance(n, ast.Return)]
+        tail = body[-1] if isinstance(body[-1], ast.Return) else None
+        inner = [r for r in rets if r is not tail]
+        if isinstance(st, ast.Expr):
+            if inner or tail is not None and tail.value is not None and not isinstance(tail.value, ast.Constant):
+                return None
+            core, last = (body[:-1] if tail is not None else body), []
+        elif isinstance(st, ast.Return):
+            core = body
+            last = [] if tail is not None else [ast.Return(value=None)]
+        else:
+            tg = st.targets if isinstance(st, ast.Assign) else [st.target]
+            if inner or tail is None or tail.value is None or len(tg) != 1 or not isinstance(tg[0], ast.Name):
+                return None
+            core = body[:-1]
+            last = [ast.Assign(targets=[clone(tg[0])], value=tail.value, type_comment=None)]
+        pre = []
+        mapping = {}
+        for p_, x in m.items():
+            if self._plain(x):
+                mapping[p_] = x
+            else:
+                nm = self._fresh(p_)
+                pre.append(ast.Assign(targets=[ast.Name(id=nm, ctx=ast.Store())], value=clone(x), type_comment=None))
+                mapping[p_] = ast.Name(id=nm, ctx=ast.Load())
+        # locals of the helper get names the caller does not use
+        ren = {}
+        for b in body:
+            for n in ast.walk(b):
+                if isinstance(n, ast.Name) and isinstance(n.ctx, (ast.Store, ast.Del)) and n.id not in ren:
+                    ren[n.id] = self._fresh(n.id) if n.id in self.taken else n.id
+                    self.taken.add(ren[n.id])
+        out = list(pre)
+        for b in [*core, *last]:
+            b2 = clone(b)
+            for n in ast.walk(b2):
+                if isinstance(n, ast.Name) and n.id in ren:
+                    n.id = ren[n.id]
+            out.append(_Subst(mapping).visit(b2))
+        if not out:
+            out = [ast.Pass()]
+        return [_relocate(x, st) for x in out]
+
+    def block(self, stmts: list) -> list:
+        out = []
+        for st in stmts:
+            if isinstance(st, (ast.FunctionDef, ast.AsyncFunctionDef, ast.ClassDef)):
+                out.append(st)
+                continue
+            for f in ("body", "orelse", "finalbody"):
+                v = getattr(st, f, None)
+                if isinstance(v, list) and v and isinstance(v[0], ast.stmt):
+                    setattr(st, f, self.block(v))
+            for h in getattr(st, "handlers", []) or []:
+                h.body = self.block(h.body)
+            r = self.stmts(st) if self.count < 40 else None
+            if r is not None:
+                self.changed = True
+                self.count += 1
+                out.extend(r)
+            else:
+                out.append(st)
+        return out
+
+    def run(self) -> None:
+        me = self
+
+        class Ex(ast.NodeTransformer):
+            def visit_FunctionDef(self_, n):  # noqa: N805
+                return n if n is not me.root else self_.generic_visit(n)
+            visit_AsyncFunctionDef = visit_FunctionDef
+
+            def visit_Lambda(self_, n):  # noqa: N805
+                return n
+
+            def visit_ClassDef(self_, n):  # noqa: N805
+                return n
+
+            def visit_Attribute(self_, n):  # noqa: N805
+                self_.generic_visit(n)
+                r = me.getter(n) if me.count < 40 and isinstance(n.ctx, ast.Load) else None
+                if r is not None:
+                    me.changed = True
+                    me.count += 1
+                    return r
+                return n
+
+            def visit_Call(self_, n):  # noqa: N805
+                self_.generic_visit(n)
+                r = me.expr(n) if me.count < 40 else None
+                if r is not None:
+                    me.changed = True
+                    me.count += 1
+                    return r
+                return n
+        Ex().visit(self.root)
+        self.root.body = self.block(self.root.body)
+
+
+def _may_call_foreign(repo, fi: FuncInfo) -> bool:
+    for c in ast.walk(fi.node):
+        if isinstance(c, ast.Call) and _foreign_target(repo, fi, c) is not None:
+            return True
+        if isinstance(c, ast.Attribute) and isinstance(c.ctx, ast.Load) and _foreign_getter(repo, c) is not None:
+            return True
+    return False
+
+
 def _derived(fi: FuncInfo, node) -> FuncInfo:
     ast.fix_missing_locations(node)
     set_parents(node)
@@ -1981,8 +2417,16 @@ def _derived(fi: FuncInfo, node) -> FuncInfo:
     return v
 
 
-def _make_view(repo, fi: FuncInfo) -> FuncInfo:
+def _make_view(repo, fi: FuncInfo, _level: int = 0) -> FuncInfo:
     interesting = False
+    if _level < 4 and _may_call_foreign(repo, fi):
+        node0 = clone(fi.node)
+        set_parents(node0)
+        v0 = FuncInfo(fi.name, fi.qualname, node0, fi.module, fi.cls)
+        inl = _ForeignInliner(repo, v0, node0)
+        inl.run()
+        if inl.changed:
+            return _make_view(repo, _derived(fi, node0), _level + 1)
     if any(isinstance(n, ast.For) and isinstance(strip_cast(n.iter), (ast.GeneratorExp, ast.ListComp, ast.Call)) or
            isinstance(n, ast.Assign) and isinstance(strip_cast(n.value), (ast.ListComp, ast.Call)) and len(n.targets) == 1 and isinstance(n.targets[0], ast.Name)
            for n in walk_no_nested(fi.node)):
@@ -2257,10 +2701,95 @@ def _entry_texts(l: ast.For, table: str, kind: str):
     return None
 
 
+def _is_gen(g: FuncInfo) -> bool:
+    return any(isinstance(n, (ast.Yield, ast.YieldFrom)) for n in walk_no_nested(g.node))
+
+
+def _generator_calls(repo, f: FuncInfo, it: ast.AST, depth: int = 3) -> list:
+    """
+    [(call, [NEW generator helpers])] for the generator calls all of whose items an iteration over `it` sees: the call itself,
+    list() / tuple() / iter() of it, itertools.chain(a, b, ...), chain.from_iterable((a, b, ...)) - also through a once-bound local.
+    """
+    it = strip_cast(resolve(f, it))
+    if not isinstance(it, ast.Call) or depth <= 0:
+        return []
+    if isinstance(it.func, ast.Name) and it.func.id in ("list", "tuple", "iter") and len(it.args) == 1 and not it.keywords \
+            and not is_param(f, it.func.id) and not local_defs(f, it.func.id):
+        return _generator_calls(repo, f, it.args[0], depth - 1)
+    if _std_callee(f, it.func) == ("itertools", "chain") and not it.keywords and not any(isinstance(a, ast.Starred) for a in it.args):
+        return [x for a in it.args for x in _generator_calls(repo, f, a, depth - 1)]
+    if isinstance(it.func, ast.Attribute) and it.func.attr == "from_iterable" and _std_callee(f, it.func.value) == ("itertools", "chain") \
+            and len(it.args) == 1 and not it.keywords and isinstance(strip_cast(it.args[0]), (ast.Tuple, ast.List)) \
+            and not any(isinstance(a, ast.Starred) for a in strip_cast(it.args[0]).elts):
+        return [x for a in strip_cast(it.args[0]).elts for x in _generator_calls(repo, f, a, depth - 1)]
+    ts = _new_helper_targets(repo, f, it)
+    if ts and all(_is_gen(t) for t in ts):
+        return [(it, ts)]
+    if len(ts) == 1 and not _is_gen(ts[0]) and not ts[0].is_async:
+        # a plain helper that only builds the iterable (`return chain(a(x), b(x))`): its generators are consumed by the same loop
+        body = _helper_body(ts[0])
+        if len(body) == 1 and isinstance(body[0], ast.Return) and body[0].value is not None:
+            g = _rebound(ts[0], it)
+            if g is not None:
+                return [(c2, gs) for c2, gs in _generator_calls(repo, g, g.node.body[-1].value, depth - 1)]
+    return []
+
+
+def _rebound(g: FuncInfo, call: ast.Call):
+    """g with every parameter that receives the caller's `self` renamed to `self` (None when that cannot be done by renaming)."""
+    try:
+        bound = _bind_args(g, call)
+    except Exception:  # noqa: BLE001
+        return None
+    ren = {p_: "self" for p_, a in bound.items() if isinstance(strip_cast(a), ast.Name) and strip_cast(a).id == "self" and p_ != "self"}
+    if not ren:
+        return g
+    if "self" in {n.id for n in ast.walk(g.node) if isinstance(n, ast.Name)} | set(g.params()) or any(local_defs(g, p_) for p_ in ren):
+        return None
+    node = clone(g.node)
+    for n in ast.walk(node):
+        if isinstance(n, ast.Name) and n.id in ren:
+            n.id = "self"
+        elif isinstance(n, ast.arg) and n.arg in ren:
+            n.arg = "self"
+    return _derived(g, node)
+
+
+def _bound_view(ctx: Ctx, g: FuncInfo, call: ast.Call) -> FuncInfo:
+    """
+    The helper g as the caller sees it: a parameter that receives a plain name of the caller (`self` first of all: a method
+    turned into a function taking the object) is spelled with that name.  g itself when nothing needs renaming or a name would clash.
+    """
+    v = _view(ctx, g)
+    try:
+        bound = _bind_args(g, call)
+    except Exception:  # noqa: BLE001
+        return v
+    ren = {p_: strip_cast(a).id for p_, a in bound.items() if isinstance(strip_cast(a), ast.Name) and strip_cast(a).id == "self" and p_ != "self"}
+    if not ren:
+        return v
+    used = {n.id for n in ast.walk(v.node) if isinstance(n, ast.Name)} | set(g.params())
+    if any(t in used for t in ren.values()) or any(local_defs(v, p_) for p_ in ren):
+        return v
+    cache = ctx.__dict__.setdefault("_c09_bound_views", {})
+    key = (id(v.node), tuple(sorted(ren.items())))
+    if key not in cache:
+        node = clone(v.node)
+        for n in ast.walk(node):
+            if isinstance(n, ast.Name) and n.id in ren:
+                n.id = ren[n.id]
+            elif isinstance(n, ast.arg) and n.arg in ren:
+                n.arg = ren[n.arg]
+        cache[key] = _derived(v, node)
+    return cache[key]
+
+
 def _sweep_sites(ctx: Ctx, fi: FuncInfo):
     """
     (function, loop, table, kind, consumer) for every loop over a copy of a routing table in fi and in the NEW private
-    helpers fi runs on every normal path; a loop inside a NEW generator helper is tied to the loop of fi that consumes it.
+    helpers fi runs on every normal path; a loop inside a NEW generator helper is tied to the loop of fi that consumes it:
+    consumer = (function, loop, always) where `always` says that the consuming loop runs on every normal path of its function and
+    that every generator on the way down (`yield from` / re-yield loops) hands on the inner generator's items on every normal path.
     """
     out = []
     todo, seen = [(fi, None)], set()
@@ -2270,28 +2799,40 @@ def _sweep_sites(ctx: Ctx, fi: FuncInfo):
             continue
         seen.add(f.qualname)
         cfg = ctx.cfg(f)
+
+        def passed_always(node, cfg=cfg) -> bool:
+            ns = cfg.nodes_for(node)
+            return bool(ns) and cfg.exit not in cfg.reach(cut_nodes=ns, follow_exc=False)
+
         for l in [l for l in walk_no_nested(f.node) if isinstance(l, ast.For)]:
             tr = _traversal(f, l.iter)
             if tr is not None and tr[0] in SWEEP:
                 out.append((f, l, tr[0], tr[1], consumer))
                 continue
-            it = strip_cast(resolve(f, l.iter))
-            if isinstance(it, ast.Call):
-                for g in _new_helper_targets(ctx.repo, f, it):
-                    if any(isinstance(n, (ast.Yield, ast.YieldFrom)) for n in walk_no_nested(g.node)) and consumer is None:
-                        todo.append((_view(ctx, g), (f, l)))
+            for _c, gs in _generator_calls(ctx.repo, f, l.iter):
+                for g in gs:
+                    if consumer is None:
+                        todo.append((_bound_view(ctx, g, _c), (f, l, passed_always(l))))
+                    elif isinstance(l.target, ast.Name) and len(l.body) == 1 and isinstance(l.body[0], ast.Expr) and isinstance(l.body[0].value, ast.Yield) \
+                            and isinstance(l.body[0].value.value, ast.Name) and l.body[0].value.value.id == l.target.id and not l.orelse:
+                        # `for x in inner(): yield x` inside a generator: the items go to the same consumer
+                        todo.append((_bound_view(ctx, g, _c), (consumer[0], consumer[1], consumer[2] and passed_always(l))))
         if consumer is not None:
+            for y in [y for y in walk_no_nested(f.node) if isinstance(y, ast.YieldFrom)]:
+                for _c, gs in _generator_calls(ctx.repo, f, y.value):
+                    for g in gs:
+                        todo.append((_bound_view(ctx, g, _c), (consumer[0], consumer[1], consumer[2] and passed_always(y))))
             continue
         for c in calls(f):
             par = getattr(c, "_parent", None)
             if isinstance(par, ast.For) and par.iter is c:
                 continue
             for g in _new_helper_targets(ctx.repo, f, c):
-                if any(isinstance(n, (ast.Yield, ast.YieldFrom)) for n in walk_no_nested(g.node)):
+                if _is_gen(g):
                     continue
                 ns = cfg.nodes_for(c)
                 if ns and cfg.exit not in cfg.reach(cut_nodes=ns, follow_exc=False):
-                    todo.append((_view(ctx, g), None))
+                    todo.append((_bound_view(ctx, g, c), None))
     return out
 
 
@@ -2317,6 +2858,157 @@ def _record_slot(f: FuncInfo, value: ast.AST | None, idset: set[str]):
             if not isinstance(e, ast.Starred) and set(_texts(f, e)) & idset:
                 return (k,)
     return None
+
+
+def _init_fields(cls) -> dict | None:
+    """
+    field -> constructor parameter for a small record class with a hand-written __init__ whose top-level statements store
+    parameters unchanged (`self.f = p`): only those fields are listed.  None when instances can be something else than what the
+    constructor call shows (inherited constructors, attribute hooks, `self` escaping from __init__).
+    """
+    hooks = ("__new__", "__getattr__", "__getattribute__", "__setattr__", "__post_init__", "__init_subclass__")
+    if any(m in c.methods for c in cls.mro() for m in hooks) or any("__init__" in c.methods for c in cls.mro()[1:]) or cls.subclasses:
+        return None
+    init = cls.methods.get("__init__")
+    if init is None or init.node.decorator_list or init.node.args.vararg or init.node.args.kwarg or cls.node.decorator_list:
+        return None
+    ps = init.params()
+    if not ps:
+        return None
+    me = ps[0]
+    for n in ast.walk(init.node):
+        if isinstance(n, ast.Name) and n.id == me and not (isinstance(getattr(n, "_parent", None), ast.Attribute) and n._parent.value is n):
+            return None                                             # `self` handed to someone else
+    stored_params = {n.id for n in ast.walk(init.node) if isinstance(n, ast.Name) and isinstance(n.ctx, (ast.Store, ast.Del))}
+    out: dict = {}
+    for st in init.node.body:
+        if isinstance(st, (ast.Assign, ast.AnnAssign)) and st.value is not None:
+            tg = st.targets if isinstance(st, ast.Assign) else [st.target]
+            v = strip_cast(st.value)
+            if len(tg) == 1 and isinstance(tg[0], ast.Attribute) and isinstance(tg[0].value, ast.Name) and tg[0].value.id == me \
+                    and isinstance(v, ast.Name) and v.id in ps[1:] and v.id not in stored_params:
+                out[tg[0].attr] = v.id
+    # a field is what the constructor stored only if nothing else of the class writes it and it is not shadowed by a descriptor
+    for g in cls.methods.values():
+        for n in ast.walk(g.node):
+            if isinstance(n, ast.Attribute) and isinstance(n.ctx, (ast.Store, ast.Del)) and n.attr in out:
+                own = enclosing_stmt(n)
+                if not (g is init and own in init.node.body and isinstance(own, (ast.Assign, ast.AnnAssign)) and
+                        sum(1 for x in ast.walk(init.node) if isinstance(x, ast.Attribute) and isinstance(x.ctx, (ast.Store, ast.Del)) and x.attr == n.attr) == 1):
+                    out.pop(n.attr, None)
+    for name in list(out):
+        if name in cls.attrs or name in cls.methods:
+            out.pop(name)
+    return out
+
+
+def _ctor_fields(repo, f: FuncInfo, call: ast.AST):
+    """(field -> argument expression, ordered field names | None, mutable?) for a call that builds a record (NamedTuple / dataclass / small class)."""
+    if not isinstance(call, ast.Call) or any(isinstance(a, ast.Starred) for a in call.args) or any(k.arg is None for k in call.keywords):
+        return None
+    if isinstance(call.func, ast.Name) and (is_param(f, call.func.id) or local_defs(f, call.func.id)):
+        return None
+    cls = repo.resolve_class_expr(f.module, call.func)
+    if cls is None:
+        return None
+    names = _record_fields(repo, cls)
+    if names is not None:
+        out = {}
+        for k, a in enumerate(call.args):
+            if k >= len(names):
+                return None
+            out[names[k]] = a
+        for kw in call.keywords:
+            if kw.arg not in names or kw.arg in out:
+                return None
+            out[kw.arg] = kw.value
+        return out, (names if _is_namedtuple(cls) else None), not _is_namedtuple(cls)
+    fields = _init_fields(cls)
+    if not fields:
+        return None
+    init = cls.methods["__init__"]
+    bound = _bind_args(init, call)
+    return {fld: bound[p_] for fld, p_ in fields.items() if p_ in bound}, None, True
+
+
+def _record_env(repo, f: FuncInfo, rec: ast.AST, l: ast.For):
+    """
+    consumer-side spelling -> producer-side expression for one yielded / appended record `rec` (an expression of f) received by
+    the loop `l`: the loop variable, its elements `v[k]`, its fields `v.name`, or the names of a tuple target.  (env, mutable?)
+    """
+    rec = strip_cast(rec)
+    if isinstance(rec, ast.Name):
+        d = single_def(f, rec.id)
+        uses = [n for n in ast.walk(f.node) if isinstance(n, ast.Name) and n.id == rec.id]
+        if d is not None and d[1] is None and len(uses) == 2 and isinstance(strip_cast(d[0]), (ast.Call, ast.Tuple, ast.List)):
+            rec = strip_cast(d[0])
+    t = l.target
+    env: dict = {}
+    mutable = False
+    elts = rec.elts if isinstance(rec, (ast.Tuple, ast.List)) and not any(isinstance(e, ast.Starred) for e in rec.elts) else None
+    cf = _ctor_fields(repo, f, rec)
+    if cf is not None and cf[1] is not None and all(n in cf[0] for n in cf[1]):
+        elts = [cf[0][n] for n in cf[1]]
+    if isinstance(t, ast.Name):
+        env[t.id] = rec
+        for k, e in enumerate(elts or ()):
+            env[f"{t.id}[{k}]"] = e
+        if cf is not None:
+            mutable = cf[2]
+            for name, e in cf[0].items():
+                env[f"{t.id}.{name}"] = e
+    elif isinstance(t, (ast.Tuple, ast.List)) and elts is not None and len(elts) == len(t.elts) and all(isinstance(x, ast.Name) for x in t.elts):
+        for x, e in zip(t.elts, elts):
+            env[x.id] = e
+    else:
+        return None
+    return env, mutable
+
+
+def _record_removed(ctx: Ctx, f: FuncInfo, rec: ast.AST | None, idset: set[str], remover: str, cf: FuncInfo, cl: ast.For) -> bool:
+    """
+    Every normal run of the body of the consuming loop `cl` (in cf), started with the record `rec` (built in f for an entry whose id
+    is named by idset), calls the remover with that id before the next record is fetched; the remover and the id may both travel in the
+    record (`(self.remove_x, cid, ...)`, a small object with such fields) - what the consumer calls is read back through the record.
+    """
+    if rec is None or any(isinstance(n, (ast.Break, ast.Return)) for n in ast.walk(cl)):
+        return False
+    r = _record_env(ctx.repo, f, rec, cl)
+    if r is None:
+        return False
+    env, mutable = r
+    tnames = {n.id for n in ast.walk(cl.target) if isinstance(n, ast.Name)}
+    inner = [n for b in [*cl.body, *cl.orelse] for n in ast.walk(b)]
+    if any(isinstance(n, ast.Name) and n.id in tnames and isinstance(n.ctx, (ast.Store, ast.Del)) for n in inner):
+        return False
+    if mutable:
+        for n in inner:
+            if isinstance(n, ast.Name) and n.id in tnames:
+                par = getattr(n, "_parent", None)
+                if not (isinstance(par, ast.Attribute) and par.value is n and isinstance(par.ctx, ast.Load)):
+                    return False                                    # the record object itself is stored / changed / handed on
+
+    def produced(e: ast.AST | None) -> set[str]:
+        out: set[str] = set()
+        if e is None:
+            return out
+        for t in _texts(cf, e):
+            if t in env:
+                out |= set(_texts(f, env[t]))
+        return out
+
+    cfg = ctx.cfg(cf)
+    sinks = []
+    for c in inner:
+        if not isinstance(c, ast.Call):
+            continue
+        fn = produced(c.func) | ({chain(c.func)} if not (set(_texts(cf, c.func)) & set(env)) else set())
+        if f"self.{remover}" in fn and produced(arg(c, 0, "circuit_id")) & idset:
+            sinks.extend(cfg.nodes_for(c))
+    loopn = cfg.nodes_for(cl)
+    starts = [v for n in loopn for v, lab in n.succ if lab is True]
+    reach = cfg.reach(starts, cut_nodes=sinks, follow_exc=False)
+    return bool(sinks) and not any(n in reach for n in loopn) and cfg.exit not in reach
 
 
 def _consumer_removes(ctx: Ctx, f: FuncInfo, l: ast.For, slot, remover: str) -> bool:
@@ -2349,11 +3041,11 @@ def _deferred_sinks(ctx: Ctx, f: FuncInfo, cfg, l: ast.For, idset: set[str], rem
     """
     out = []
     if consumer is not None:
-        cf, cl = consumer
+        cf, cl = consumer[0], consumer[1]
         for y in ast.walk(l):
             if isinstance(y, ast.Yield):
                 slot = _record_slot(f, y.value, idset)
-                if slot is not None and _consumer_removes(ctx, cf, cl, slot, remover):
+                if slot is not None and _consumer_removes(ctx, cf, cl, slot, remover) or _record_removed(ctx, f, y.value, idset, remover, cf, cl):
                     out.extend(cfg.nodes_for(y))
         return out
     loopn = cfg.nodes_for(l)
@@ -2367,8 +3059,6 @@ def _deferred_sinks(ctx: Ctx, f: FuncInfo, cfg, l: ast.For, idset: set[str], rem
                                                  or isinstance(strip_cast(d[0]), ast.Call) and chain(strip_cast(d[0]).func) == "list" and not strip_cast(d[0]).args):
             continue
         slot = _record_slot(f, c.args[0], idset)
-        if slot is None:
-            continue
         for l2 in [x for x in walk_no_nested(f.node) if isinstance(x, ast.For) and x is not l]:
             it = strip_cast(l2.iter)
             if isinstance(it, ast.Call) and isinstance(it.func, ast.Name) and it.func.id in ("list", "tuple") and len(it.args) == 1:
@@ -2379,7 +3069,8 @@ def _deferred_sinks(ctx: Ctx, f: FuncInfo, cfg, l: ast.For, idset: set[str], rem
             # the consuming loop runs on every normal continuation after the sweep loop, and the list is only appended to
             others = [x for x in ast.walk(f.node) if isinstance(x, ast.Name) and x.id == lst and isinstance(getattr(x, "_parent", None), ast.Attribute)
                       and x._parent.attr != "append"]
-            if cfg.exit not in cfg.reach(after, cut_nodes=l2n, follow_exc=False) and not others and _consumer_removes(ctx, f, l2, slot, remover):
+            if cfg.exit not in cfg.reach(after, cut_nodes=l2n, follow_exc=False) and not others and \
+                    (slot is not None and _consumer_removes(ctx, f, l2, slot, remover) or _record_removed(ctx, f, c.args[0], idset, remover, f, l2)):
                 out.extend(cfg.nodes_for(c))
     return out
 
@@ -2414,7 +3105,8 @@ def rule_sweep(ctx: Ctx) -> None:
             loopn = cfg.nodes_for(l)
             starts = [v for n in loopn for v, lab in n.succ if lab is True]
             sinks = _remover_sinks(f, cfg, l, remover, idset) + _deferred_sinks(ctx, f, cfg, l, idset, remover, consumer)
-            always = len(lp) == 1 or consumer is not None or cfg.exit not in cfg.reach(cut_nodes=loopn, follow_exc=False)
+            on_every_path = cfg.exit not in cfg.reach(cut_nodes=loopn, follow_exc=False)
+            always = consumer[2] and on_every_path if consumer is not None else len(lp) == 1 or on_every_path
 
             def removed_under(assume: dict, f=f, l=l, cfg=cfg, loopn=loopn, starts=starts, sinks=sinks, always=always) -> bool:
                 """Under the assumption about *this* entry, no normal run of the loop body gets to the next entry without handing it to the remover."""
@@ -2815,6 +3507,41 @@ def rule_destroy_propagates(ctx: Ctx) -> None:
     ok = len(sd) == 1 and any(f"{b}.hop.address" in _texts(dr, arg(sd[0], 0)) for b in far) and any(f"{b}.circuit_id" in _texts(dr, arg(sd[0], 1)) for b in far)
     ctx.check(ok, "destroy-propagates", dr, dr.node, "destroy_relay addresses the far side (relay.hop.address, relay.circuit_id)",
               "destroy_relay sends the destroy to the wrong neighbour / under the wrong circuit id")
+    # our own end of a tunnel: the destroy goes to the tunnel's first hop - for a circuit that is `circuit.hop`, which is the
+    # neighbour the CREATE went to also while no hop has answered yet (the verified path `hops` is empty then: indexing it raises
+    # inside remove_circuit before the table pop, and the half-built circuit and the neighbour's state stay behind)
+    for helper in ("destroy_circuit", "destroy_exit_socket"):
+        hf = _meth(ctx, "TunnelCommunity", helper, TC)
+        obj = hf.params()[1]
+        for ch in ctx.anchor(_site_chains(ctx, hf, "self.send_destroy"), f"send_destroy in {helper}"):
+            f, c = ch[-1]
+            addr, cid = arg(c, 0, "target"), arg(c, 1, "circuit_id")
+            back = {}
+            if len(ch) == 2:
+                back = _bind_args(f, ch[0][1])
+            elif len(ch) > 2:
+                raise AnalysisError(f"undecided: {helper} sends the destroy {len(ch) - 1} helpers down; the address is not followed that far")
+
+            def spelled(e, f=f, back=back, hf=hf) -> set[str]:
+                if e is None:
+                    return set()
+                out = set(_texts(f, e)) if f.node is hf.node or not back else set()
+                if back:
+                    e2 = _Subst({k: v for k, v in back.items() if not local_defs(f, k)}).visit(clone(strip_cast(e)))
+                    out |= set(_texts(hf, e2))
+                return out
+            a_ok = f"{obj}.hop.address" in spelled(addr) or addr is not None and len(ch) == 1 and _always_is(ctx, f, addr, c, (f"{obj}.hop.address",))
+            i_ok = f"{obj}.circuit_id" in spelled(cid) or cid is not None and len(ch) == 1 and _always_is(ctx, f, cid, c, (f"{obj}.circuit_id",))
+            if not a_ok and addr is not None:
+                shown = " / ".join(sorted(spelled(addr))) or norm(addr)
+                verified_only = any(isinstance(n, ast.Subscript) and (chain(n.value) or "").endswith(("hops", "_hops")) for t in spelled(addr) | {norm(addr)}
+                                    for n in ast.walk(_parse(t) or ast.Pass()))
+                plain = any(isinstance(n, ast.Attribute) and n.attr in ("hop", "unverified_hop") for t in spelled(addr) for n in ast.walk(_parse(t) or ast.Pass()))
+                if not verified_only and plain:
+                    raise AnalysisError(f"undecided: {helper} addresses the destroy to `{shown}`: whether that is the first hop of the tunnel in every state is not decided")
+            ctx.check(a_ok and i_ok, "destroy-propagates", f, c, f"{helper} addresses the tunnel's first hop ({obj}.hop.address, {obj}.circuit_id)",
+                      f"{helper} does not address the destroy to the tunnel's first hop under its circuit id (for a circuit without a verified hop "
+                      "`hops[0]` raises inside remove_circuit before the entry is popped: the half-built circuit stays in the table and its neighbour is never told)")
     sdf = _meth(ctx, "TunnelCommunity", "send_destroy", TC)
     pk = [c for c in calls(sdf, "self.ezr_pack")]
     ok = len(pk) == 1 and not any(k.arg == "sig" and isinstance(k.value, ast.Constant) and k.value.value is False for k in pk[0].keywords)
@@ -3454,6 +4181,9 @@ def run(ctx: Ctx) -> None:
 
 
 WITNESSES = [
+    {"name": "destroy of an own circuit addressed to the verified path only", "file": TC, "rule": "destroy-propagates",
+     "old": "        sock_addr = circuit.hop.address\n        self.send_destroy(sock_addr, circuit.circuit_id, reason)",
+     "new": "        sock_addr = circuit.hops[0].address\n        self.send_destroy(sock_addr, circuit.circuit_id, reason)"},
     {"name": "relay sweep dropped", "file": TC, "rule": "sweep-coverage",
      "old": "        for circuit_id, relay in list(self.relay_from_to.items()):\n            if relay.last_activity < time.time() - self.settings.max_time_inactive:\n                self.remove_relay(circuit_id, \"no activity\")\n            elif",
      "new": "        for circuit_id, relay in list(self.relay_from_to.items()):\n            if relay.bytes_up + relay.bytes_down == 0 and relay.last_activity < time.time() - self.settings.max_time_inactive:\n                self.remove_relay(circuit_id, \"no activity\")\n            elif"},
